@@ -23,7 +23,7 @@ while args:
         names.append(a)
 root = os.path.join(HERE, "seeded")
 if not names:
-    names = sorted(d for d in os.listdir(root) if os.path.isdir(os.path.join(root, d)))
+    names = sorted(d for d in os.listdir(root) if os.path.isdir(os.path.join(root, d)) and not d.startswith("_"))
 results = []
 for name in names:
     d = os.path.join(root, name)
